@@ -41,6 +41,18 @@ CHECKS = {
     text="Kernel-checked refinement: for every operation sequence over a universe of located paths with pairwise different segment lists, LocalFileStore (request level) answers exactly like the dictionary specification = MemoryStore (local_refines), and so does the cache-wrapped local store for every capacity (cached_local_refines, composing C12); loc_injective / loc_contained: a location is the path's own list of non-empty segments, never '.'/'..', so different segment lists never alias and nothing escapes the data directory. Lock-step correspondence on memory/local/local+cache (and DBFS fake when built) incl. reopen, ambiguous names (a, b, ab), spaces, unicode, dots; realpath containment and link-per-path checks on the real tree.",
     note="disk abstracted to the files/links the store creates (request-level atomicity; crashes and interleavings are C06/C07); a path and its extension are not both committed (C11); codecs abstracted to an injective encoding; sampled correspondence",
     technique="Lean 4 proof (simulation relation LocalSt ~ Dict, composition with the LRU simulation) + lock-step differential correspondence"),
+ "C03": dict(
+    text="Byte-exact correspondence: the path->signature map of the real analysis equals the interpretation of the Lean model's symbolic signatures for every program, in every environment variant {PYTHONHASHSEED 0/1/random, cwd, package moved on disk, store memory/local/noop/cache, extra_debug on/off, graph export on, fresh process vs after earlier evaluations and redefinitions in the same process}; implementation and model both reproduce a pinned corpus of 12 programs (corpus/c03). Kernel-checked: the analysis does not depend on stages/debug/export flags (flags_irrelevant), depends on the store only through the committed keys of loaded-not-produced paths (store_irrelevant, history_irrelevant).",
+    note="hash seed / cwd / on-disk location have no counterpart in the model: decided by the byte-exact correspondence only (partial); process history is a theorem only because the model has no process state - the correspondence runs every program after earlier evaluations to check the code has none either; pinned corpus is a regression check",
+    technique="Lean 4 model with byte-exact interpretation (real SHA-256) + proved independence lemmas; differential runs in subprocesses over environment variants; pinned corpus"),
+ "C10": dict(
+    text="Kernel-checked for every world, store state and request: an evaluation that ends with any error leaves the path table exactly as it was (failure_commits_nothing, via the frame lemma runFn_paths: running user code never writes the path table), the error that comes out is the one raised (failure_propagates), a kept call whose function fails stores nothing under its key (failing_call_not_stored). Correspondence + oracle: every function of generated pipelines made the failing one x 5 exception classes incl. BaseException subclasses: identity of the propagated exception object, no blob under the signatures of the failing function and of the functions waiting for it, no commit, context idle, repaired pipeline evaluates to plain execution re-using completed sub-results.",
+    note="'behaves as if the failed evaluation had not happened' for later evaluations rests on the C01 store invariant (stage 2) and is decided by the oracle here; sampled",
+    technique="Lean 4 proof (frame lemma by induction over the run) + fault injection at every function with differential comparison"),
+ "C15": dict(
+    text="Kernel-checked for every world, store and request: without the eval stage nothing runs, nothing is stored or committed (analysis_only); without path_commit every path is as it was (no_commit); the signatures do not depend on the stage list or flags (sigs_stage_independent); _parse_stages accepts exactly prefixes of the stage order (parse_prefix); the stage order is re-read from the enum in the code on every run (stage_table over Generated/Facts.lean). Correspondence + oracle over generated pipelines x every prefix x spellings (lower/upper/mixed case, enum members) x stores, interleaved with full runs; invalid lists refused.",
+    note="dds_stages exists on dds.eval only; 'a later full evaluation returns the same values' is decided by the oracle (value == plain execution after restricted runs); sampled",
+    technique="Lean 4 proof (case analysis of evalStep + frame lemma) + facts table regenerated from the code + differential runs"),
 }
 NOT_YET = "check not built yet in this round (work in progress, see DESIGN.md §10)"
 
